@@ -130,19 +130,19 @@ for (L, K) in ((28, 1), (28, 4), (32, 5), (32, 8)):
     for OFF in range(8 * L):
         add(name="c03_fault_burst_%d_%d_o%d" % (L, K, OFF), prop="C03", crate="det",
             expr="crate::c03::fault_burst::<%d, %d, %d, %d>" % (L, K, D, OFF), unwind=18, unwindset=BOARD_LOOPS,
-            cap_s=1500, mem_gb=4, est_s=80, family="fault_burst", funcs=CHUNK_FUNCS, witnesses=FAULT_W,
+            cap_s=600, mem_gb=4, est_s=80, family="fault_burst", funcs=CHUNK_FUNCS, witnesses=FAULT_W, klass="best",
             sched="pool" if (L, K) in ((28, 1), (32, 8)) else "thorough",
             params={"len": L, "chunk_length": K, "board": D, "first_flipped_bit": OFF, "error": "any burst of <= 32 bits starting there"})
     if (L, K) in ((28, 1), (32, 8)):
         for (a, b) in itertools.combinations(range(NW), 2):
             add(name="c03_fault_w2_%d_%d_w%d_%d" % (L, K, a, b), prop="C03", crate="det",
                 expr="crate::c03::fault_w2::<%d, %d, %d, %d, %d>" % (L, K, D, a, b), unwind=18, unwindset=BOARD_LOOPS,
-                cap_s=1500, mem_gb=4, est_s=80, family="fault_w2", funcs=CHUNK_FUNCS, witnesses=FAULT_W, sched="pool",
+                cap_s=600, mem_gb=4, est_s=80, family="fault_w2", funcs=CHUNK_FUNCS, witnesses=FAULT_W, sched="pool", klass="best",
                 params={"len": L, "chunk_length": K, "board": D, "words": [a, b], "error": "weight <= 3, both words hit"})
         for (a, b, c) in itertools.combinations(range(NW), 3):
             add(name="c03_fault_w3_%d_%d_w%d_%d_%d" % (L, K, a, b, c), prop="C03", crate="det",
                 expr="crate::c03::fault_w3::<%d, %d, %d, %d, %d, %d>" % (L, K, D, a, b, c), unwind=18, unwindset=BOARD_LOOPS,
-                cap_s=1500, mem_gb=4, est_s=80, family="fault_w3", funcs=CHUNK_FUNCS, witnesses=FAULT_W, sched="pool",
+                cap_s=600, mem_gb=4, est_s=80, family="fault_w3", funcs=CHUNK_FUNCS, witnesses=FAULT_W, sched="pool", klass="best",
                 params={"len": L, "chunk_length": K, "board": D, "words": [a, b, c], "error": "one bit in each word"})
     add(name="c03_fault_bit_%d_%d" % (L, K), prop="C03", crate="det", expr="crate::c03::fault_bit::<%d, %d, %d>" % (L, K, D),
         unwind=18, unwindset=BOARD_LOOPS, cap_s=3600, mem_gb=8, est_s=1300, family="fault_bit", funcs=CHUNK_FUNCS,
@@ -150,7 +150,7 @@ for (L, K) in ((28, 1), (28, 4), (32, 5), (32, 8)):
         params={"len": L, "chunk_length": K, "board": D, "error": "one bit at a symbolic position"})
     add(name="c03_crc_accessors_%d_%d" % (L, K), prop="C03", crate="det", expr="crate::c03::chunk_crc_accessors::<%d, %d>" % (L, K),
         unwind=18, unwindset=BOARD_LOOPS, cap_s=2400, mem_gb=12, est_s=600, family="chunk_crc_accessors", funcs=CHUNK_FUNCS,
-        witnesses=["accepted"], sched="always" if (L, K) == (28, 4) else "thorough", klass="best",
+        witnesses=["accepted"], sched="thorough", klass="best",
         params={"len": L, "chunk_length": K, "clause": "header_crc32c()/payload_crc32c() reproduce the stored words"})
 META["C03"] = {
     "pool_k": 10,
@@ -175,7 +175,7 @@ PWB_FUNCS = ["alpha_g_detector::padwing::<PwbV2Packet as TryFrom<&[u8]>>::try_fr
 def pwb_loops(nchan):
     # the two mask scans `while num != 0 { .. leading_zeros .. }` are not constant-folded by CBMC: give them exactly
     # popcount+2 iterations (unwinding assertions prove that is enough) instead of the default
-    return [("BoardId", 73), ("known_mac", 73), ("c05::spec", 81), ("list_matches_mask", 81), ("pwb_iff_body", 81),
+    return [("BoardId", 73), ("known_mac", 73), ("c05::spec", 81), ("list_matches_mask", 81), ("pwb_iff_body", 81), ("check_waveform", 81),
             ("c05::shape", 22), ("memcmp", 8), ("ChunksExact", 40), ("rfold", nchan + 2), ("IntoIter", nchan + 2),
             ("TryFromRShE8try_from.", nchan + 2)]
 PWB_LOOPS = pwb_loops(2)
@@ -412,14 +412,16 @@ def drift(K, M, sched, klass="core", fams=("range_and_bounds", "knots", "symmetr
         est = (2400 if heavy else 60) * (2 if two else 1)
         add(name="c18_%s_t%d_%s" % (fam, K, MODES[M]), prop="C18", crate="phys", expr="crate::c18::%s::<%d, %d>" % (fam, K, M),
             unwind=4, unwindset=[(p, n + 5) for p, _ in DRIFT_LOOPS], cap_s=3 * est + 300, mem_gb=12 if heavy else 4, est_s=est,
-            family=fam, funcs=DRIFT_FUNCS, witnesses=wit, klass=("best" if (heavy or fam == "monotone_continuous") else klass), sched=sched,
+            family=fam, funcs=DRIFT_FUNCS, witnesses=wit, klass=("best" if (heavy or two) else klass),
+            sched=("thorough" if two else sched),
             params={"table": K, "knots": MODES[M], "of": DRIFT_LEN[K], "t": "[-1e-6, 5e-6] s", "z": "within the slice"})
 for K in range(92):
     q = "always" if K in (0, 91) else "pool"
-    drift(K, 1, q)
-    drift(K, 2, q)
+    fams = ("range_and_bounds", "knots", "symmetry", "monotone_continuous") if K in (0, 45, 91) else ("range_and_bounds", "knots")
+    drift(K, 1, q, fams=fams)
+    drift(K, 2, q, fams=fams)
 for K in (0, 6, 45, 91):
-    drift(K, 3, "pool" if K in (0, 91) else "thorough")
+    drift(K, 3, "pool" if K in (0, 91) else "thorough", fams=("range_and_bounds", "knots"))
 for K in (0, 91, 6):
     drift(K, 0, "thorough", klass="best", fams=("range_and_bounds", "knots"))
 for J in range(12):
@@ -450,6 +452,10 @@ CBTS_FUNCS = ["alpha-g-chronobox-timestamps::chronobox_time (private fn, text ex
 add(name="c20_soundness", prop="C20", crate="phys", expr="crate::c20::soundness", unwind=4, cap_s=900, mem_gb=4, est_s=30,
     family="cbts_soundness", funcs=CBTS_FUNCS[:1] + CBTS_FUNCS[2:], witnesses=["some-time", "no-time-despite-two-markers"],
     params={"entry": "any 24-bit timestamp, channel, edge", "markers": "any presence, counters, top bits"})
+add(name="c20_soundness_value", prop="C20", crate="phys", expr="crate::c20::soundness_value", unwind=4, cap_s=1800, mem_gb=4, est_s=900,
+    family="cbts_soundness", funcs=CBTS_FUNCS[:1] + CBTS_FUNCS[2:], witnesses=[], sched="thorough", klass="best",
+    params={"entry": "any 24-bit timestamp, channel, edge", "markers": "both present, any counters and top bits",
+            "claim": "a reported time is bit-identical to (timestamp + ((counter+1)/2) * 2^24) / 10 MHz"})
 add(name="c20_displacement", prop="C20", crate="phys", expr="crate::c20::displacement", unwind=4, cap_s=900, mem_gb=4, est_s=30,
     family="cbts_displacement", funcs=CBTS_FUNCS[:1], witnesses=["reached"],
     params={"edge": "true tick in [2^24, 16*2^23)", "faults": "late/early by one half wrap, dropped, duplicated, missing marker"})
